@@ -71,6 +71,9 @@ def misc_program(rng, far=False):
     """all non-li pseudos with varied registers; labels before, between and after"""
     items = [{'k': 'label', 'name': 'A'}, {'k': 'pseudo', 'm': 'nop', 'ops': []}]
     labels = ['A', 'B', 'C']
+    trailing = rng.random() < 0.5
+    if trailing:
+        labels.append('Z')         # defined after the last item: its offset is the size of the program
     body = []
     R = lambda: {'r': rng.choice(REGS) if rng.random() < 0.8 else rng.randrange(32)}  # noqa
     for m in sem.PSEUDOS:
@@ -119,6 +122,8 @@ def misc_program(rng, far=False):
         # also far *backward*: a call/tail placed after the gap
         items += [{'k': 'pseudo', 'm': 'call', 'ops': [{'t': 'A'}]}, {'k': 'pseudo', 'm': 'tail', 'ops': [{'t': 'B'}]},
                   {'k': 'pseudo', 'm': 'call', 'ops': [{'t': 'FAR'}]}]
+    if trailing:
+        items.append({'k': 'label', 'name': 'Z'})
     if rng.random() < 0.4:
         items = randprog.constify(rng, items, 0.2)
     return items
@@ -141,6 +146,60 @@ def named_location_program(rng, compress):
     items.append({'k': 'pseudo', 'm': m, 'ops': [{'t': 'TLOC'}]})
     items.append({'k': 'pseudo', 'm': 'ret', 'ops': []})
     return items
+
+
+def drift_program(rng, base):
+    """li of a label expression whose value sits at the edge of the one-instruction range while the label it names still moves:
+    between the li and the label are items that end up smaller than first assumed (aligns, short li, near call/tail, compressible)"""
+    R = lambda: {'r': rng.choice(REGS[1:])}  # noqa
+    shape = rng.randrange(4)
+    if shape == 0:
+        e = {'pos': ['T', {'i': base}]}
+    elif shape == 1:
+        e = {'sum': [{'lab': 'T'}, base]}
+    elif shape == 2:
+        e = {'sum': [{'diff': ['S', 'T']}, -base]}          # decreasing in T
+    else:
+        e = {'pos': ['T', {'x': ['(%d)' % base, base]}]}
+    items = [{'k': 'pseudo', 'm': 'nop', 'ops': []} for _ in range(rng.randrange(3))]
+    items += [{'k': 'label', 'name': 'S'}, {'k': 'pseudo', 'm': 'li', 'ops': [R(), e]}]
+    for _ in range(rng.randrange(1, 7)):
+        c = rng.randrange(6)
+        if c == 0:
+            items.append({'k': 'align', 'n': rng.choice([4, 8, 16, 64, 256, 1024])})
+        elif c == 1:
+            items.append({'k': 'pseudo', 'm': 'li', 'ops': [R(), {'i': rng.randrange(-30, 31)}]})
+        elif c == 2:
+            items.append({'k': 'pseudo', 'm': rng.choice(['call', 'tail']), 'ops': [{'t': 'S'}]})
+        elif c == 3:
+            items.append({'k': 'inst', 'm': 'addi', 'ops': [{'r': 8}, {'r': 8}, {'i': 1}]})
+        elif c == 4:
+            items += [{'k': 'gap', 'n': rng.choice([1, 2, 3, 5])}, {'k': 'align', 'n': 2}]
+        else:
+            items.append({'k': 'pseudo', 'm': 'mv', 'ops': [R(), R()]})
+    items += [{'k': 'align', 'n': 2}, {'k': 'label', 'name': 'T'}, {'k': 'pseudo', 'm': 'ret', 'ops': []}]
+    return items
+
+
+def drift_case(asm, acc, case, compress):
+    """two builds: the first only measures where T ends up, the second places the li value next to -2048 / 2047"""
+    seedtxt = 'c05-drift-%d-%d-%s' % (case['seed'], case['idx'], compress)
+    probe = drift_program(random.Random(seedtxt), 0)
+    ex0 = progcheck.examine(asm, probe, compress, judge=False)
+    if not ex0.ok or ex0.layout_problem:
+        return None, None
+    t, s0 = ex0.labels_true['T'], ex0.labels_true['S']
+    rng = random.Random(seedtxt + 'v')
+    want = rng.choice([-2048, -2049, -2052, -2056, -2060, -2080, -2047, -2044, 2047, 2048, 2050, 2052, 2060, 2040, -3000, 100])
+    shape = random.Random(seedtxt).randrange(4) if False else None
+    items = drift_program(random.Random(seedtxt), 0)
+    e = items[[i for i, it in enumerate(items) if it['k'] == 'label' and it['name'] == 'S'][0] + 1]['ops'][1]
+    if 'pos' in e or ('sum' in e and 'lab' in e['sum'][0]):
+        base = want - t
+    else:
+        base = -(want - (s0 - t))
+    items = drift_program(random.Random(seedtxt), base)
+    return items, want
 
 
 def judge(acc, ex, rcase, items):
@@ -182,6 +241,12 @@ def run_case(asm, acc, case):
         if case['kind'] == 'named':
             items = named_location_program(random.Random('c05-named-%d-%d-%s' % (case['seed'], case['idx'], compress)), compress)
             lines = None
+        if case['kind'] == 'drift':
+            items, want = drift_case(asm, acc, case, compress)
+            lines = None
+            if items is None:
+                acc['ctr']['drift_probe_failed'] += 1
+                continue
         ex = progcheck.examine(asm, items, compress, seed='%s-%d' % (case['kind'], case['idx']), nregs=case.get('nregs', 5), lines=lines)
         if not ex.ok:
             acc['ctr']['refused'] += 1
@@ -192,8 +257,14 @@ def run_case(asm, acc, case):
             core.add_viol(acc, 'layout: ' + ex.layout_problem, rcase, {})
             continue
         judge(acc, ex, rcase, items)
+        if case['kind'] == 'drift':
+            for idx, it, st, data, probs, info in ex.per_item:
+                if it['k'] == 'pseudo' and it['m'] == 'li' and P.label_dependent(it['ops'][1]):
+                    v = P.ev(it['ops'][1], ex.labels_true, {}, st)
+                    acc['ctr']['drift_li_final_value_%s' % ('below_-2048' if v < -2048 else 'above_2047' if v > 2047 else 'in_12_bits')] += 1
+                    core.see(acc, 'drift_li_values', max(-2100, min(2100, v)))
     if case['idx'] % 37 == 0:
-        core.add_sample(acc, {'program_kind': case['kind'], 'first_lines': (lines or P.render(items))[:8]})
+        core.add_sample(acc, {'program_kind': case['kind'], 'first_lines': (lines or P.render(items or []))[:8]})
 
 
 def run_shard(sh, deadline):
@@ -214,6 +285,7 @@ def plan(tier, seed):
     cases += [{'kind': 'misc', 'seed': seed, 'idx': i} for i in range(nmisc)]
     cases += [{'kind': 'far', 'seed': seed, 'idx': i} for i in range(nfar)]
     cases += [{'kind': 'named', 'seed': seed, 'idx': i} for i in range(400 if tier == 'quick' else 20000)]
+    cases += [{'kind': 'drift', 'seed': seed, 'idx': i} for i in range(600 if tier == 'quick' else 30000)]
     nsh = 64 if tier == 'quick' else 512
     # far programs (MiB gaps) are the slow ones: spread them
     cases.sort(key=lambda c: c['kind'] != 'far')
@@ -231,6 +303,9 @@ def gates(acc, tier):
         for o in ('taken', 'not-taken'):
             if '%s:%s' % (m, o) not in outs:
                 g.append('branch outcome never exercised: %s %s' % (m, o))
+    for k in ('below_-2048', 'above_2047', 'in_12_bits'):
+        if not acc['ctr'].get('drift_li_final_value_' + k) and not acc['nviol']:
+            g.append('no li of a moving label expression ended ' + k)
     exps = acc['seen'].get('expansions', set())
     for need in ('li->addi', 'li->lui+addi', 'call->jal', 'call->auipc+jalr', 'tail->jal', 'tail->auipc+jalr'):
         if need not in exps and not acc['nviol']:
